@@ -19,10 +19,13 @@ Transcription map (code as it is after the two `fix:` commits of `known_findings
 `Slot.hist` is GHOST state: the frames accepted into the slot since its first frame. No function of the model
 reads it (it is only written), the theorems are stated with it.
 
-Not modelled here: ISO-TP (PGN 60416/60160, property C10) – such frames are outside `handled` and leave the
-state unchanged, consequently no slot is ever a TP slot and `IsTPMessage()` is constantly false; application
-supplied PGN lists (`SetSingleFrameMessages` …: default lists only); what the node does with a delivered system
-message (listen-only node: nothing).
+* `TestHandleTPMessage`, TP.CM RTS/BAM branch only → `rxTPOpen` (a slot opened by TP.CM carries `tp = true` and is never a
+                                           fast-packet continuation target; `FreeMessage` does not reset the flag)
+* application PGN lists (`Set/ExtendSingleFrameMessages`, `Set/ExtendFastPacketMessages`) → `Cfg.sf0/sf1/fp0/fp1`
+
+Not modelled here (property C10): TP.DT (60160) and the other TP.CM control bytes – such frames leave the state
+unchanged in the model and are never generated; what the node does with a delivered system message (listen-only
+node: nothing).
 -/
 namespace N2k.Rx
 open N2k.Time
@@ -55,6 +58,7 @@ structure Slot where
   src : Nat
   dst : Nat
   prio : Nat
+  tp : Bool                -- N2kMsg.IsTPMessage()
   lastFrame : Nat
   dataLen : Nat
   data : List Nat          -- Data[0..CopiedLen)
@@ -71,9 +75,9 @@ structure Msg where
   data : List Nat          -- Data[0..DataLen)
   deriving Repr, DecidableEq
 
-def emptySlot : Slot := ⟨true, 0, 0, 0, 0, 0, 0, [], 0, []⟩
+def emptySlot : Slot := ⟨true, 0, 0, 0, 0, false, 0, 0, [], 0, []⟩
 
-/-- `FreeMessage()` -/
+/-- `FreeMessage()` (the TP flag of `N2kMsg` is not touched) -/
 def freeSlot (s : Slot) : Slot :=
   { s with free := true, pgn := 0, src := 0, dataLen := 0, msgTime := 0, hist := [] }
 
@@ -99,8 +103,8 @@ def oldest (st : St) (now : Nat) : Nat → Nat × Nat
     if isTimeBefore (st.slot k).msgTime (oldest st now k).2 then (k, (st.slot k).msgTime)
     else oldest st now k
 
-/-- the slot key used by both lookups: PGN and source -/
-def matchP (f : Frame) (s : Slot) : Bool := s.pgn == f.pgn && s.src == f.src
+/-- the slot key used by both fast-packet lookups: PGN and source, and not a TP slot -/
+def matchP (f : Frame) (s : Slot) : Bool := s.pgn == f.pgn && s.src == f.src && !s.tp
 
 def findSlot (st : St) (f : Frame) : Nat := findFirst st (matchP f) st.N 0
 
@@ -126,11 +130,11 @@ def finish (st : St) (i : Nat) (s' : Slot) : St × Option Msg :=
 
 def initSlot (old : Slot) (now : Nat) (f : Frame) (fp : Bool) : Slot :=
   if fp then
-    { old with free := false, pgn := f.pgn, src := f.src, dst := f.dst, prio := f.prio % 8,
+    { old with free := false, pgn := f.pgn, src := f.src, dst := f.dst, prio := f.prio % 8, tp := false,
                msgTime := millis32 now, hist := [f],
                data := copy [] 2 f, lastFrame := f.byte 0, dataLen := f.byte 1 }
   else
-    { old with free := false, pgn := f.pgn, src := f.src, dst := f.dst, prio := f.prio % 8,
+    { old with free := false, pgn := f.pgn, src := f.src, dst := f.dst, prio := f.prio % 8, tp := false,
                msgTime := millis32 now, hist := [f],
                data := copy [] 0 f, lastFrame := 0, dataLen := f.len }
 
@@ -154,33 +158,81 @@ def rxCore (isFP : Nat → Bool) (st : St) (now : Nat) (f : Frame) : St × Optio
 /-! ## classification (`CheckKnownMessage`, default lists) and the gates -/
 
 structure Cfg where
-  knownOnly : Bool := false       -- HandleOnlyKnownMessages()
+  knownOnly : Bool := false                 -- HandleOnlyKnownMessages()
+  sf0 : Option (List Nat) := none           -- SingleFrameMessages[0]  (SetSingleFrameMessages)
+  sf1 : Option (List Nat) := none           -- SingleFrameMessages[1]  (ExtendSingleFrameMessages)
+  fp0 : Option (List Nat) := none           -- FastPacketMessages[0]   (SetFastPacketMessages)
+  fp1 : Option (List Nat) := none           -- FastPacketMessages[1]   (ExtendFastPacketMessages)
 
-/-- `KnownMessage` result of `CheckKnownMessage` -/
-def known (pgn : Nat) : Bool :=
-  pgn != 0 &&
-  (Gen.isDefaultSingleFrameMessage.contains pgn || Gen.isMandatoryFastPacketMessage.contains pgn ||
-   Gen.isDefaultFastPacketMessage.contains pgn || Gen.isSingleFrameSystemMessage.contains pgn ||
-   Gen.isFastPacketSystemMessage.contains pgn)
+/-- the list search of `CheckKnownMessage` for a PGN ≠ 0 (the lists are 0-terminated arrays of non-zero PGNs) -/
+def inL (l : Option (List Nat)) (pgn : Nat) : Bool :=
+  match l with
+  | none => false
+  | some xs => xs.contains pgn
 
-/-- `FastPacket` result of `CheckKnownMessage` (the checks are made in this order, each returns) -/
-def isFP (pgn : Nat) : Bool :=
-  if pgn = 0 then false
-  else if Gen.isDefaultSingleFrameMessage.contains pgn then false
-  else if Gen.isMandatoryFastPacketMessage.contains pgn then true
-  else if Gen.isDefaultFastPacketMessage.contains pgn then true
-  else if Gen.isSingleFrameSystemMessage.contains pgn then false
-  else if Gen.isFastPacketSystemMessage.contains pgn then true
-  else Gen.isProprietaryFastPacketMessage pgn
+/-- `CheckKnownMessage`: (KnownMessage, FastPacket); the tests are made in this order and each one returns -/
+def classify (c : Cfg) (pgn : Nat) : Bool × Bool :=
+  if pgn = 0 then (false, false)
+  else if c.sf0.isNone && Gen.isDefaultSingleFrameMessage.contains pgn then (true, false)
+  else if Gen.isMandatoryFastPacketMessage.contains pgn then (true, true)
+  else if c.fp0.isNone && Gen.isDefaultFastPacketMessage.contains pgn then (true, true)
+  else if Gen.isSingleFrameSystemMessage.contains pgn then (true, false)
+  else if Gen.isFastPacketSystemMessage.contains pgn then (true, true)
+  else if inL c.sf0 pgn then (true, false)
+  else if inL c.fp0 pgn then (true, true)
+  else if inL c.sf1 pgn then (true, false)
+  else if inL c.fp1 pgn then (true, true)
+  else (false, Gen.isProprietaryFastPacketMessage pgn)
 
-/-- ISO-TP connection management / data transfer: handled by `TestHandleTPMessage` (C10) -/
+def known (c : Cfg) (pgn : Nat) : Bool := (classify c pgn).1
+def isFP (c : Cfg) (pgn : Nat) : Bool := (classify c pgn).2
+
+/-- ISO-TP connection management / data transfer: handled by `TestHandleTPMessage` -/
 def isTP (pgn : Nat) : Bool := pgn == 60416 || pgn == 60160
 
-def handled (c : Cfg) (f : Frame) : Bool := !isTP f.pgn && (known f.pgn || !c.knownOnly)
+/-- TP.CM with control byte RTS (16) or BAM (32): opens a TP reassembly session in a slot -/
+def isTPOpen (f : Frame) : Bool := f.pgn == 60416 && (f.byte 0 == 16 || f.byte 0 == 32)
+
+def handled (c : Cfg) (f : Frame) : Bool := !isTP f.pgn && (known c f.pgn || !c.knownOnly)
+
+/-! ## TP.CM RTS / BAM: a slot is taken by a TP session (receiver side of C10, only as far as it occupies slots) -/
+
+def tpMatchP (pgn src dst : Nat) (s : Slot) : Bool := s.pgn == pgn && s.src == src && s.tp && s.dst == dst
+
+/-- the loop that frees the unfinished TP transfers of this source to this destination -/
+def tpClear (st : St) (src dst : Nat) : St :=
+  { st with slot := fun j =>
+      if !(st.slot j).free && (st.slot j).tp && (st.slot j).src == src && (st.slot j).dst == dst
+      then freeSlot (st.slot j) else st.slot j }
+
+/-- `Init(7,TransportPGN,Source,Destination)`, `CopiedLen=0`, `LastFrame=0`, `DataLen=nBytes`, `SetIsTPMessage()` -/
+def tpSlot (old : Slot) (now pgn src dst nBytes : Nat) : Slot :=
+  { old with free := false, pgn := pgn, src := src, dst := dst, prio := 7, tp := true,
+             msgTime := millis32 now, hist := [], data := [], lastFrame := 0, dataLen := nBytes }
+
+/-- the slot is used if the announced size fits and the transported PGN passes the known-message gate -/
+def tpUse (ok : Bool) (st : St) (i : Nat) (now pgn src dst nBytes : Nat) : St :=
+  if ok then setSlot st i (tpSlot (st.slot i) now pgn src dst nBytes) else st
+
+def rxTPOpen (c : Cfg) (st : St) (now : Nat) (f : Frame) : St :=
+  let tpgn := f.byte 5 + 256 * f.byte 6 + 65536 * f.byte 7
+  let nBytes := f.byte 1 + 256 * f.byte 2
+  let ok := decide (nBytes ≤ 223) && (known c tpgn || !c.knownOnly)
+  let st1 := tpClear st f.src f.dst
+  -- FindFreeCANMsgIndex(TransportPGN,Source,Destination,true,MsgIndex)
+  if findFirst st1 (tpMatchP tpgn f.src f.dst) st1.N 0 < st1.N then
+    tpUse ok st1 (findFirst st1 (tpMatchP tpgn f.src f.dst) st1.N 0) now tpgn f.src f.dst nBytes
+  else if findFreeOnly st1 < st1.N then tpUse ok st1 (findFreeOnly st1) now tpgn f.src f.dst nBytes
+  else if recycle st1 now < st1.N then
+    tpUse ok (setSlot st1 (recycle st1 now) (freeSlot (st1.slot (recycle st1 now)))) (recycle st1 now)
+      now tpgn f.src f.dst nBytes
+  else st1
 
 /-- one received frame at virtual time `now` -/
 def rx (c : Cfg) (st : St) (now : Nat) (f : Frame) : St × Option Msg :=
-  if handled c f then rxCore isFP st now f else (st, none)
+  if handled c f then rxCore (isFP c) st now f
+  else if isTPOpen f then (rxTPOpen c st now f, none)
+  else (st, none)
 
 /-! ## whole frame histories: a list of (arrival time, frame) -/
 
